@@ -15,7 +15,8 @@ theorem doomed_mono {i : Nat} {s s' : Sim} (h : Doomed i s)
     exact Or.inl ⟨e', he', by rw [hi', hi], hc'⟩
   · exact Or.inr (hg i h)
 
-theorem pushUser_doomed {i : Nat} {s : Sim} (h : Doomed i s) (t : Int) (p a : Nat) : Doomed i (pushUser s t p a) :=
+theorem pushUser_doomed {i : Nat} {s : Sim} (h : Doomed i s) (t : Int) (p a : Nat) (c : Option Nat := none) :
+    Doomed i (pushUser s t p a c) :=
   doomed_mono h (fun e he hc => ⟨e, mem_insert.mpr (Or.inr he), rfl, hc⟩) (fun _ hj => hj)
 
 theorem pushStep_doomed {i : Nat} {s : Sim} (h : Doomed i s) : Doomed i (pushStep s) :=
@@ -48,8 +49,15 @@ theorem doCmd_doomed {i : Nat} {s : Sim} (h : Doomed i s) (c : Cmd) : Doomed i (
         · simp at hs
         · simp only [Except.ok.injEq] at hs; subst hs; exact pushUser_doomed h _ _ _
     · exact h
+  | again k d p =>
+    rcases doCmd_again_cases s k d p with he | ⟨a, _, _, he⟩ <;> rw [he]
+    · exact h
+    · exact pushUser_doomed h _ _ _ _
   | cancel k => exact mapFlags_doomed h _ (fun e => by split <;> simp)
-  | drop k => exact mapFlags_doomed h _ (fun e => by split <;> simp)
+  | drop k =>
+    exact doomed_mono
+      (mapFlags_doomed h (fun e => if !e.isStep && e.fn == k then { e with dead := true } else e) (fun e => by split <;> simp))
+      (fun e he hc => ⟨e, he, rfl, hc⟩) (fun _ hj => hj)
   | halt => exact h
 
 theorem foldl_doCmd_doomed {i : Nat} {s : Sim} (h : Doomed i s) (cs : List Cmd) : Doomed i (cs.foldl doCmd s) := by
